@@ -106,6 +106,8 @@ func NewKeeper(
 	}
 	k.Schema = schema
 
+	verifInstrument(&k)
+
 	return k
 }
 
